@@ -5,6 +5,7 @@ import (
 	"crypto/sha1"
 	"encoding/hex"
 	"fmt"
+	"hash"
 	"io"
 	"math/rand"
 	"os"
@@ -26,7 +27,7 @@ func init() { register(c13{}) }
 func (c13) ID() string    { return "C13" }
 func (c13) Level() string { return "fault_enumeration" }
 func (c13) Rule() string {
-	return "for bodies {empty, 1 B, 100 B text, 5 KiB text, 70 KiB incompressible, 200 KiB multi-block} written through the real cache.CreateLevel/Write/Close (chunked like the CLI's 4 KiB bufio writer): (1) control: the finished entry opens and reads back exactly the body; (2) every byte offset x {8 single-bit masks, 0x00, 0xFF, complement} of the finished file (all offsets for files <= 8 KiB and for the 60-byte header of every file, sampled offsets beyond: quick 300, thorough 20000 per file); (3) every truncation length (all for small files, all header lengths + sampled for big ones); (4) appended tails {1 B, 60 B, a whole second entry}; (5) the entry stored under the name of a different root/data digest and opened with the other key, and opened in place with a different rsum or dsum; (6) crash points through hook H1 on the real write path: after create, after the placeholder header, before every body write, after flate close, after the body hash, before the final header, tear:K for every K in 0..60, after the header - each followed by cache.Open; (7) the real CLI `gts clear|reverse|complement` SIGKILLed at every H1/H2 point of its own write path, and run under strace with ENOSPC/EIO injected into the N-th write(2) on the cache entry for every N; then the identical command run clean over the same cache directory must equal the uncached reference (and a faulted run that exits 0 must have printed the reference output); (8) whole entries through the CLI: a 2.6 MB three-record FASTA stream through gts reverse / gts complement -F fasta twice over one cache directory (the second run is a traced hit), and two different inputs on stdin with the same arguments, each twice, every run equal to its --no-cache reference. Oracle: Open err==nil => ReadAll == exactly the written body; every damaged state must fail to open. non-trivial: a fault was actually applied (state differs from the finished entry); distinct: (body, fault kind, parameter)."
+	return "for bodies {empty, 1 B, 100 B text, 5 KiB text, 70 KiB incompressible, 200 KiB multi-block} written through the real cache.CreateLevel/Write/Close (chunked like the CLI's 4 KiB bufio writer): (1) control: the finished entry opens and reads back exactly the body; (2) every byte offset x {8 single-bit masks, 0x00, 0xFF, complement} of the finished file (all offsets for files <= 8 KiB and for the 60-byte header of every file, sampled offsets beyond: quick 300, thorough 20000 per file); (3) every truncation length (all for small files, all header lengths + sampled for big ones); (4) appended tails {1 B, 60 B, a whole second entry}; (5) the entry stored under the name of a different root/data digest and opened with the other key, and opened in place with a different rsum or dsum; (6) crash points through hook H1 on the real write path: after create, after the placeholder header, before every body write, after flate close, after the body hash, before the final header, tear:K for every K in 0..60, after the header - each followed by cache.Open; (7) the real CLI `gts clear|reverse|complement` SIGKILLed at every H1/H2 point of its own write path, and run under strace with ENOSPC/EIO injected into the N-th write(2) on the cache entry for every N; then the identical command run clean over the same cache directory must equal the uncached reference (and a faulted run that exits 0 must have printed the reference output); (8) whole entries through the CLI: a 2.6 MB three-record FASTA stream through gts reverse / gts complement -F fasta twice over one cache directory (the second run is a traced hit), and two different inputs on stdin with the same arguments, each twice, every run equal to its --no-cache reference. Oracle: Open err==nil => ReadAll == exactly the written body; every damaged state must fail to open. non-trivial: a fault was actually applied (state differs from the finished entry); distinct: (body, fault kind, parameter). (9) control cases over {GenBank record, 8-record stream, FASTA, small record, empty} x levels {Create default, 0, 1, 2, 5, 6, 9, Huffman-only} x {a hash per call, one hash with a lookup of another key between Create and Close, one hash with a second entry and a caller digest in between}; the write(2) error injection of (7) also on a 48-record stream (failures in the middle of the body)."
 }
 func (c13) Assumptions() []string {
 	return []string{"crash = process death with the operating system surviving (bytes handed to write(2) persist, bytes buffered in the flate writer are lost); no fsync / power-loss model",
@@ -36,7 +37,7 @@ func (c13) Assumptions() []string {
 func (c13) RequiredBuckets(tier string) []string {
 	return []string{"control:clean-entry-reads-back", "flip:header", "flip:body", "truncate", "extend", "wrong-key:renamed", "wrong-key:in-place",
 		"crash:created", "crash:placeholder", "crash:body-write", "crash:flate-closed", "crash:hashed", "crash:pre-header", "crash:post-header", "tear",
-		"fault:open-failed", "crash:over-an-earlier-entry", "cli:crash-then-clean-run", "cli:multi-MiB-output", "cli:two-inputs,-same-arguments", "body:empty", "body:multi-block", "body:stored-size-block-aligned", "body:several-MiB", "writers:overlapping"}
+		"fault:open-failed", "crash:over-an-earlier-entry", "cli:crash-then-clean-run", "cli:multi-MiB-output", "cli:two-inputs,-same-arguments", "body:empty", "body:multi-block", "body:stored-size-block-aligned", "body:several-MiB", "writers:overlapping", "control:level:-1", "control:level:9", "control:caller:1", "control:caller:2", "control:genbank-record", "cli:io-error-in-the-middle-of-a-large-body"}
 }
 
 type body struct {
@@ -467,11 +468,136 @@ func (m c13) Run(c *fw.Ctx) {
 	}
 	m.bigBody(c, x)
 	m.overlappingWriters(c, x)
+	m.levelsAndCallers(c, x)
 	m.cliCrashes(c)
 }
 
 // overlappingWriters: two entries (different keys) are written at the same
 // time by one process, their writes interleaved; each reads back its own body.
+// levelsAndCallers is the control case over what callers may legitimately
+// vary: the kind of text stored (the flat files gts writes, not only synthetic
+// bodies), the compression level (Create's default and every CreateLevel
+// level), and one hash.Hash value serving every cache call of the caller, other
+// calls falling between Create and Close of the entry. A finished entry opens
+// and reads back exactly what was written.
+func (m c13) levelsAndCallers(c *fw.Ctx, x *c13ctx) {
+	repo := os.Getenv("VERIF_REPO_DIR")
+	if repo == "" {
+		repo = "/repo"
+	}
+	gbk, err := os.ReadFile(filepath.Join(repo, "seqio", "testdata", "NC_001422.gb"))
+	if err != nil {
+		c.Inconclusive("corpus not readable: " + err.Error())
+		return
+	}
+	r := c.SubRng("c13-levels")
+	fasta := []byte(">NC_001422.1 Coliphage phi-X174, complete genome\n")
+	for i := 0; i < 5386; i++ {
+		fasta = append(fasta, "acgt"[r.Intn(4)])
+		if i%70 == 69 {
+			fasta = append(fasta, '\n')
+		}
+	}
+	small := []byte("LOCUS       X 10 bp DNA linear UNA 01-JAN-2020\nFEATURES             Location/Qualifiers\n     source          1..10\n                     /organism=\"x\"\nORIGIN      \n        1 acgtacgtac\n//\n")
+	bodies := []body{{"genbank-record", gbk}, {"genbank-stream-of-8", bytes.Repeat(gbk, 8)}, {"fasta-record", fasta}, {"small-genbank-record", small}, {"empty", nil}}
+	levels := []int{-1, 1, 2, 5, 6, 9, 0, -2}
+	for _, bd := range bodies {
+		for _, lv := range levels {
+			for mode := 0; mode < 3; mode++ {
+				if !c.NextShared() {
+					continue
+				}
+				enc := fmt.Sprintf("control: %s (%d bytes) stored at level %d, %s", bd.name, len(bd.data), lv,
+					[]string{"a hash of its own for every call", "one hash for all calls, a lookup of another key between Create and Close", "one hash for all calls, a second entry written and the caller's own digest taken between Create and Close"}[mode])
+				c.Begin(enc)
+				c.Count(enc, len(bd.data) > 0)
+				c.Bucket(fmt.Sprintf("control:level:%d", lv))
+				c.Bucket(fmt.Sprintf("control:caller:%d", mode))
+				c.Bucket("control:" + bd.name)
+				cache.VerifPlan = func(string, int) string { return "" }
+				cache.VerifReset()
+				rs := sum(fmt.Sprintf("levels-%s-%d-%d", bd.name, lv, mode))
+				rs2 := sum(fmt.Sprintf("levels-2-%s-%d-%d", bd.name, lv, mode))
+				var got, got2 []byte
+				var oerr error
+				other := []byte("the other entry\n")
+				pn, val, site, stack := fw.Guard(func() {
+					shared := sha1.New()
+					hh := func() hash.Hash {
+						if mode == 0 {
+							return sha1.New()
+						}
+						return shared
+					}
+					var f *cache.File
+					if lv == -1 {
+						f, oerr = cache.Create(x.dir, hh(), rs, x.dsum)
+					} else {
+						f, oerr = cache.CreateLevel(x.dir, hh(), rs, x.dsum, lv)
+					}
+					if oerr != nil {
+						return
+					}
+					half := len(bd.data) / 2
+					if _, oerr = f.Write(bd.data[:half]); oerr != nil {
+						return
+					}
+					switch mode {
+					case 1:
+						if g, e := cache.Open(x.dir, hh(), sum("nobody wrote this"), x.dsum); e == nil {
+							g.Close()
+						}
+					case 2:
+						g, e := cache.CreateLevel(x.dir, hh(), rs2, x.dsum, 1)
+						if e != nil {
+							oerr = e
+							return
+						}
+						g.Write(other)
+						if oerr = g.Close(); oerr != nil {
+							return
+						}
+						shared.Write([]byte("a digest the caller computes for itself"))
+						shared.Sum(nil)
+					}
+					if _, oerr = f.Write(bd.data[half:]); oerr != nil {
+						return
+					}
+					if oerr = f.Close(); oerr != nil {
+						return
+					}
+					var g *cache.File
+					if g, oerr = cache.Open(x.dir, hh(), rs, x.dsum); oerr != nil {
+						return
+					}
+					got, oerr = io.ReadAll(g)
+					g.Close()
+					if mode == 2 && oerr == nil {
+						if g, oerr = cache.Open(x.dir, hh(), rs2, x.dsum); oerr != nil {
+							return
+						}
+						got2, oerr = io.ReadAll(g)
+						g.Close()
+					}
+				})
+				os.Remove(filepath.Join(x.dir, entryName(rs, x.dsum)))
+				os.Remove(filepath.Join(x.dir, entryName(rs2, x.dsum)))
+				if pn {
+					c.ViolateX("control:"+panicClass(site, val), enc, "no panic", fmt.Sprint(val), stack, nil)
+					continue
+				}
+				if oerr != nil {
+					c.Violate("control:finished-entry-not-readable", enc, "the entry opens and reads back", oerr.Error())
+					continue
+				}
+				if !bytes.Equal(got, bd.data) || (mode == 2 && !bytes.Equal(got2, other)) {
+					c.Violate("control:finished-entry-reads-other-bytes", enc, fmt.Sprintf("%d bytes as written", len(bd.data)), fmt.Sprintf("%d bytes", len(got)))
+				}
+			}
+		}
+	}
+}
+
 func (m c13) overlappingWriters(c *fw.Ctx, x *c13ctx) {
 	r := c.SubRng("c13-overlap")
 	for round := 0; round < 6; round++ {
@@ -714,6 +840,19 @@ func (m c13) cliCrashes(c *fw.Ctx) {
 			}
 		}
 		m.cliIOErrors(c, env, args, input, ref.Stdout, ref.Exit)
+	}
+	// the same with an output of many deflate blocks: the writes that fail
+	// fall in the middle of the body, while the command is still printing.
+	{
+		big := bytes.Repeat(input, 48)
+		args := []string{"clear"}
+		ref := env.Run(append(append([]string{}, args...), "--no-cache"), big, nil, to)
+		if ref.TimedOut || ref.Exit != 0 {
+			c.Inconclusive(fmt.Sprintf("reference run of gts %v on the 48-record stream failed: exit %d", args, ref.Exit))
+			return
+		}
+		c.Bucket("cli:io-error-in-the-middle-of-a-large-body")
+		m.cliIOErrors(c, env, args, big, ref.Stdout, ref.Exit)
 	}
 	m.cliEntries(c, env, input)
 }
